@@ -61,6 +61,15 @@ def setup(ex):
         return (Guarded([(ok, None), (z3.Not(ok), mk_error("invalid point"))]),)
     I["(*%s).SetBytes" % PT] = setbytes
 
+    def setbytes_unsafe(ex_, args, ins):
+        from gosmt.exec import Obligation as Ob
+        ex_.ctx.obligations.append(Ob("proof points are parsed by the validating decoder (SetBytes), not the unchecked one", ex_.guard, "assert"))
+        p, buf = args
+        cells = cells_of(ex_, buf)
+        ex_.store_to(p, TVal(("dec", tuple(cells)), dom), PT)
+        return (None,)
+    I["(*%s).SetBytesUnsafe" % PT] = setbytes_unsafe
+
     def enc(v, kind):
         if v[0] in ("dec", "scal") and len(v[1]) == 32:
             return list(v[1])
@@ -158,7 +167,7 @@ def run(tier, seed):
         for L in Ls:
             for ch in (chunks if L in (544, 576, 577, 545) else [0, 1]):
                 for eof in (0, 1):
-                    jobs.append(("read", {"L": L, "ipa": ipa_, "chunk": ch, "eofdata": eof}))
+                    jobs.append(("read", {"L": L, "ipa": ipa_, "chunk": ch, "eofdata": eof, "badpoint": 0}))
     for fa in range(0, 20):
         jobs.append(("writeread", {"failAt": fa, "chunk": [0, 1, 32][fa % 3]}))
     rep.bounds = {"streams": "every byte content for each length in %s" % (Ls if len(Ls) < 30 else "0..640"), "reader chunking": "at most k bytes per Read for k in %s, with and without data+EOF on the last chunk" % chunks,
@@ -167,8 +176,17 @@ def run(tier, seed):
                        "canonical scalar decoder: accepts iff the little-endian value is < r, BytesLE(decode(b)) = b (C16)", "binary.Write(w, _, [32]byte) = one w.Write (stub); io.ReadAtLeast executed from its SSA"]
 
     def on(a, item):
-        rep.add(item["group"], item["recs"], _Info(item["info"]), key_prefix=item["harness"], sample=(len(rep.samples) < 6),
-                replay=std_replay(BUILD, ROOT, ROOT + "." + item["harness"], item["params"]))
+        inner = std_replay(BUILD, ROOT, ROOT + "." + item["harness"], item["params"])
+
+        def cb(rec):
+            res = inner(rec)
+            if res[0] or item["harness"] != "VerifC10Read":
+                return res
+            # counterexamples about point validity are realised natively by a concrete curve point outside the subgroup
+            r2 = dict(rec)
+            r2["model"] = {}
+            return std_replay(BUILD, ROOT, ROOT + "." + item["harness"], dict(item["params"], badpoint=1))(r2)
+        rep.add(item["group"], item["recs"], _Info(item["info"]), key_prefix=item["harness"], sample=(len(rep.samples) < 6), replay=cb)
     run_jobs(rep, job, jobs, name=lambda a: "%s %s" % a, on_result=on)
     return rep.finish(explanation="MultiProof/IPAProof Read and Write with common.ReadPoint/ReadScalar and io.ReadAtLeast executed from SSA over symbolic byte strings and a chunking reader model.")
 
